@@ -63,6 +63,10 @@ CHECKS = {
    text="The real PartitionReplicatorActor (ordered queues, buffering, eviction, catch-up, timers) with a real ConfirmationActor and Database runs on tokio's paused clock under a never-parking driver, so simulated time only moves when the scheduler advances it. The simulator is the coordinator and the network: ReplicateWrite messages in shuffled order with duplicates, conflicts, stale/far-ahead writes and withheld writes; clock advances past the catch-up and buffer timeouts; catch-up requests answered through the transport seam (error, empty, partial, complete, 20 ms simulated latency). Invariants at every quiescent point and bounded answering after the last delivery.",
    note="One replicator actor; ClusterActor's sender/staleness checks in front of it are not run here. The first write applied at a sequence defines it.",
    technique=TECH + ": seeded message reordering/duplication/conflict injection against the real replicator actor on a simulated clock, transport seam for catch-up", ref="§4 C12"),
+ "C14": dict(engine="clustersim", cat="exploration",
+   text="One real sierradb_topology::Behaviour (heartbeat/ownership encode+decode, ConnectionEstablished/Closed handling, heartbeat and timeout intervals fired through poll on tokio's paused clock) around a real TopologyManager per simulated node. The simulator is the swarm and gossipsub: it raises the FromSwarm connection events, copies every published message out of the behaviour (hook T2) and delivers it to every node reachable from the sender with per-recipient delay, loss and reordering; it also cuts links silently, restarts nodes with a new alive_since and advances time past the heartbeat timeout. Invariants after every delivery and tick, agreement and bounded convergence after faults stop, plus the static assignment over all N configured nodes (N up to 1000, including 255/256/257).",
+   note="gossipsub propagation and the libp2p swarm are stubbed by the bus; HashMap iteration order inside the manager is not seedable, so a run is replayable up to that order (the oracles do not depend on it on a correct tree).",
+   technique=TECH + ": seeded membership-event orders (connect, heartbeat, timeout, ownership request/response, restart) with message delay/loss/reordering over a simulated bus against the real topology behaviour; configuration sampled per run", ref="§4 C14"),
  "C17": dict(engine="storesim", cat="fault_enumeration",
    text="Seeded segments written by the real seglog Writer; per target record every single-bit flip, bursts of 2..32 bits and every truncation length are applied to the stored bytes of the real file and each is checked through random read, sequential read, iteration, parse_record and Writer::open (never Ok, never a panic; predecessors intact; writer resumes after the last intact record). Exhaustive per sampled record below the caps, sampled above.",
    note="Trusts the harness's byte-level fault application and the model of what was appended; CRC collisions for multi-bit faults outside the enumerated classes are not searched.",
